@@ -178,4 +178,102 @@ Proof.
   exists s', out. rewrite D in So. auto.
 Qed.
 
+(* ---- the builder's symbolic virtual phases and the frame move together ----
+   E reads a symbolic phase a + b*pi/2 as a ring element (over C: exp(i * phase)); it only has to be multiplicative and
+   to send quarter turns to powers of i and the recorded rz angle to the rz factor.  Then the frame at which every token
+   above is framed IS the exponential of the phase list the builder holds at that moment — the phases the method
+   passes to the gate set (the hand-off records: phi[i], phi[k]). *)
+Section Track.
+Add Ring RrT : Rth.
+Variable E : Z * Z -> R.
+Hypothesis E_add : forall p q, E (padd p q) = rmul (E p) (E q).
+Hypothesis E_qm1 : E (quarter (-1)) = ropp (k_i K).
+Hypothesis E_q1 : E (quarter 1) = k_i K.
+Hypothesis E_q2 : E (quarter 2) = ropp rI.
+Hypothesis E_ph : forall th, E (ph th) = k_e K th.
+Notation iq := (iq R rI ropp A K).
+
+Definition tracks (n : nat) (f : frame) (phi : list (Z * Z)) : Prop := forall q, q < n -> f q = E (nth q phi p0).
+
+Lemma lget_nth {T} (l : list T) q d : q < length l -> lget l (Z.of_nat q) = Ok (nth q l d).
+Proof.
+  intros H. unfold lget. rewrite pyidx_nat by assumption. cbn [rbind]. now rewrite (nth_error_nth' l d H).
+Qed.
+Lemma nth_set_nth {T} : forall (l : list T) k q x d, q < length l -> nth k (set_nth q x l) d = if k =? q then x else nth k l d.
+Proof.
+  induction l as [|y l IH]; intros k q x d H; cbn in H; [lia|].
+  destruct q as [|q], k as [|k]; cbn; auto. apply IH. lia.
+Qed.
+
+Lemma bstep_tracks n s f fi x s' : wf_instr n x -> b_n M s = n -> length (b_phi M s) = n -> tracks n f (b_phi M s) ->
+  bstep s (op_of f fi x) = Ok (s', None) -> tracks n (fst (fstep (f, fi) x)) (b_phi M s').
+Proof.
+  intros W Hn Hl T. destruct x as [q th|q|q|c t|c t]; cbn [wf_instr] in W; cbn [op_of Builders.bstep].
+  - unfold rz_phases. rewrite (lget_nth _ q p0) by lia. cbn [rbind]. rewrite lset_nat by lia. cbn [rbind].
+    intros H. injection H as <-. cbn [b_phi NoiseFreeRun.fstep NoiseFreeRun.compile fst]. intros k Hk.
+    rewrite nth_set_nth by lia. unfold fupd. destruct (k =? q) eqn:Ek; [|now apply T].
+    rewrite E_add, E_ph, <- T by lia. reflexivity.
+  - rewrite (lget_nth _ q p0) by lia. cbn [rbind NoiseFreeRun.compile token b_apply].
+    intros H. injection H as <-. exact T.
+  - rewrite (lget_nth _ q p0) by lia. cbn [rbind NoiseFreeRun.compile token b_apply].
+    intros H. injection H as <-. exact T.
+  - destruct W as (Hc & Ht & Hne). unfold b_two, read2, cnot_phases.
+    rewrite (lget_nth _ c p0), (lget_nth _ t p0) by lia. cbn [rbind].
+    rewrite ltb_nat. cbn [NoiseFreeRun.fstep NoiseFreeRun.compile]. unfold NoiseFreeRun.compile2.
+    destruct (Nat.ltb_spec c t) as [L|L]; cbn [choose2 c_shift_c c_shift_t c_ctl_slot c_gph fst].
+    + rewrite lset_nat by lia. cbn [rbind token b_apply]. destruct (Z.eqb_spec (Z.of_nat t) (-1)); [lia|].
+      intros H. injection H as <-. cbn [b_phi]. intros k Hk. rewrite nth_set_nth by lia. unfold fupd.
+      destruct (Nat.eqb_spec k t) as [->|Nt].
+      * destruct (Nat.eqb_spec t c); [lia|]. rewrite <- T by lia. change (iq 0) with rI. ring.
+      * destruct (Nat.eqb_spec k c) as [->|Nc]; [|now apply T].
+        rewrite E_add, E_qm1, <- T by lia. reflexivity.
+    + rewrite lset_nat by lia. cbn [rbind]. rewrite (lget_nth _ t p0) by (rewrite set_nth_length; lia). cbn [rbind].
+      rewrite lset_nat by (rewrite set_nth_length; lia). cbn [rbind token b_apply].
+      destruct (Z.eqb_spec (Z.of_nat c) (-1)); [lia|].
+      intros H. injection H as <-. cbn [b_phi]. intros k Hk.
+      rewrite !nth_set_nth by (rewrite ?set_nth_length; lia). unfold fupd.
+      destruct (Nat.eqb_spec t c); [lia|].
+      destruct (Nat.eqb_spec k c) as [->|Nc].
+      * destruct (Nat.eqb_spec c t); [lia|]. rewrite !E_add, E_q1, E_q2, <- T by lia. change (iq 3) with (ropp (k_i K)). ring.
+      * destruct (Nat.eqb_spec k t) as [->|Nt]; [|now apply T].
+        rewrite E_add, E_q1, <- T by lia. reflexivity.
+  - destruct W as (Hc & Ht & Hne). unfold b_two, read2.
+    rewrite (lget_nth _ c p0), (lget_nth _ t p0) by lia. cbn [rbind].
+    rewrite ltb_nat. cbn [NoiseFreeRun.fstep NoiseFreeRun.compile]. unfold NoiseFreeRun.compile2.
+    destruct (Nat.ltb_spec c t) as [L|L]; cbn [choose2 c_shift_c c_shift_t c_ctl_slot c_gph fst token b_apply].
+    + destruct (Z.eqb_spec (Z.of_nat t) (-1)); [lia|].
+      intros H. injection H as <-. cbn [b_phi]. intros k Hk. unfold fupd.
+      destruct (Nat.eqb_spec k t) as [->|Nt]; [rewrite <- T by lia; change (iq 0) with rI; ring|].
+      destruct (Nat.eqb_spec k c) as [->|Nc]; [rewrite <- T by lia; change (iq 0) with rI; ring | now apply T].
+    + destruct (Z.eqb_spec (Z.of_nat c) (-1)); [lia|].
+      intros H. injection H as <-. cbn [b_phi]. intros k Hk. unfold fupd.
+      destruct (Nat.eqb_spec k c) as [->|Nc]; [rewrite <- T by lia; change (iq 0) with rI; ring|].
+      destruct (Nat.eqb_spec k t) as [->|Nt]; [rewrite <- T by lia; change (iq 0) with rI; ring | now apply T].
+Qed.
+
+Hypothesis E_0 : E p0 = rI.
+Lemma bexec_tracks n : forall p ff s s', Forall (wf_instr n) p -> b_n M s = n -> length (b_phi M s) = n ->
+  tracks n (fst ff) (b_phi M s) -> bexec s (ops_from ff p) = Ok (s', []) ->
+  tracks n (fst (fold_left fstep p ff)) (b_phi M s').
+Proof.
+  induction p as [|x r IH]; intros ff s s' W Hn Hl T Ex.
+  - cbn in Ex. injection Ex as <-. exact T.
+  - destruct (bstep_appends n s (fst ff) (snd ff) x (Forall_inv W) Hn Hl) as (s1 & new1 & E1 & Hn1 & Hl1 & _).
+    cbn [ops_from] in Ex. unfold Builders.bexec in Ex. cbn [exec] in Ex. rewrite E1 in Ex. cbn [rbind fst snd] in Ex.
+    match type of Ex with rbind ?e _ = _ => destruct e as [[s2 outs]|e'] eqn:E2; [|discriminate] end.
+    cbn [rbind fst snd] in Ex. injection Ex as <- ->.
+    cbn [fold_left]. apply (IH (fstep ff x) s1 s2 (Forall_inv_tail W) Hn1 Hl1); [|exact E2].
+    pose proof (bstep_tracks n s (fst ff) (snd ff) x s1 (Forall_inv W) Hn Hl T E1) as T1.
+    now rewrite <- surjective_pairing in T1.
+Qed.
+(* a fresh circuit: all phases zero, frame of ones; after any well-formed program the frame is E of the builder's phases *)
+Theorem builder_phases_track n layout p s' : Forall (wf_instr n) p ->
+  bexec (b_init M n layout) (ops p) = Ok (s', []) ->
+  tracks n (fst (fold_left fstep p (ff_one R rI))) (b_phi M s').
+Proof.
+  intros W Ex. apply (bexec_tracks n p (ff_one R rI) (b_init M n layout) s' W eq_refl (repeat_length _ n)); [|exact Ex].
+  intros q Hq. cbn [ff_one fst b_init b_phi]. rewrite nth_repeat. unfold f_one. now rewrite E_0.
+Qed.
+End Track.
+
 End BL.
